@@ -22,7 +22,7 @@ def features(sql, dialect):
     f = {"mixed_comma_join_names": set(), "select_subquery_tables": set(), "lateral_view_aliases": set(),
          "rename_old": set(), "rename_new": set(), "having_subquery_tables": set(), "parsed": False,
          "stmt_types": [], "same_alias_subqueries": set(), "case_subquery": False, "n_rename_pairs": 0,
-         "case_subquery_aliases": set(), "subquery_aliases": set(), "select_has_subquery": False, "same_text_subqueries": False, "nested_group_first_aliases": set(), "cte_paren_setop_names": set()}
+         "case_subquery_aliases": set(), "subquery_aliases": set(), "select_has_subquery": False, "same_text_subqueries": False, "nested_group_first_aliases": set(), "cte_paren_setop_names": set(), "where_has_subquery": False}
     try:
         tree = Linter(config=FluffConfig(overrides={"dialect": d})).parse_string(sql).tree
     except Exception:
@@ -69,6 +69,9 @@ def features(sql, dialect):
                 ids = [x for x in a.segments if x.type in ("identifier", "naked_identifier", "quoted_identifier")]
                 if ids:
                     f["case_subquery_aliases"].add(_esc(ids[-1].raw))
+    for wc in tree.recursive_crawl("where_clause"):
+        if any(True for _ in wc.recursive_crawl("select_statement")):
+            f["where_has_subquery"] = True
     for hv in tree.recursive_crawl("having_clause"):
         for sub in hv.recursive_crawl("select_statement"):
             f["having_subquery_tables"] |= tables_in(sub)
